@@ -214,6 +214,26 @@ def run_case(case):
             if np.any(dev > vt):
                 i0 = int(np.argmax(dev))
                 res["violations"].append({"key": "roundtrip", "what": f"{'log' if log else 'lin'} grid start={start} stop={stop} n={n}: interpolating the grid at coordinate({v[i0]!r}) gives {back[i0]!r}"})
+            # "for every value": integer-TYPED values (python int, numpy / jax integer scalars and
+            # arrays) are values like any other - their coordinate is that of the same number as float
+            lo_i, hi_i = int(np.ceil(start if log else start - (stop - start))), int(np.floor(stop if log else stop + (stop - start)))
+            if hi_i - lo_i >= 1 and abs(lo_i) < 2**30 and abs(hi_i) < 2**30:
+                ints = np.unique(rng.integers(lo_i, hi_i + 1, 6))
+                cf = np.asarray(g.get_coordinate(jnp.asarray(ints.astype(float))), dtype=float)
+                forms = {"python int": [g.get_coordinate(int(k)) for k in ints], "numpy int64 scalar": [g.get_coordinate(np.int64(k)) for k in ints],
+                         "int32 array": g.get_coordinate(jnp.asarray(ints, dtype=jnp.int32)), "0-d int array": [g.get_coordinate(np.asarray(int(k))) for k in ints]}
+                for form, ci in forms.items():
+                    ci = np.asarray([float(np.asarray(c)) for c in ci] if isinstance(ci, list) else ci, dtype=float)
+                    cnt["integer_typed_values"] = cnt.get("integer_typed_values", 0) + len(ints)
+                    with np.errstate(all="ignore"):
+                        # an int32 array is promoted to SINGLE precision by the array library (a
+                        # consequence of the argument's dtype, not of the grid code): float32 tolerance
+                        tl = 1e-3 if (not x64 or form == "int32 array") else 1e-9
+                        okc = np.abs(ci - cf) <= tl * (1 + np.abs(cf)) + 16 * (6e-8 if tl > 1e-6 else 2.2e-16) * cond
+                    if not np.all(okc):
+                        i0 = int(np.argmin(okc))
+                        res["violations"].append({"key": "coordinate_of_integer_typed_value", "what": f"{'log' if log else 'lin'} grid start={start} stop={stop} n={n}: coordinate of {int(ints[i0])} given as {form} is {ci[i0]!r}; the same value as float gives {cf[i0]!r}"})
+                        break
             samples.append({"kind": "log" if log else "lin", "start": start, "stop": stop, "n": n, "values": int(len(v))})
         res["sig"] = str([(s["kind"], s["n"], round(s["start"], 6)) for s in samples])
         res["nontrivial"] = any(s["n"] >= 3 for s in samples)
